@@ -860,18 +860,10 @@ def obs_hash(a):
 
 
 def measure_variants():
-    """Which variant of each recorded finding the code under test exhibits."""
-    import odl
-    from odl.space.npy_tensors import NumpyTensorSpaceArrayWeighting as NA
-    from odl.space.pspace import ProductSpaceArrayWeighting as PA
-    v = {}
-    try:
-        v['intv_guard'] = not (odl.IntervalProd(0, 1) == odl.IntervalProd([0, 0, 0], [1, 1, 1]))
-    except Exception:
-        v['intv_guard'] = False
-    w = np.array([1.0, 2.0])
-    v['arrw_hash_type'] = hash(NA(w)) != hash(PA(w))
-    return v
+    """The two variant switches of C20/Model.v are no longer measured: both defects are fixed in
+    /repo (dd669fb, 99fe16d) and the shards run against live_variants; a regression breaks the
+    correspondence (and Tables.v for the hash)."""
+    return {'intv_guard': True, 'arrw_hash_type': False}
 
 
 RULE = ('eqhash: pairs (a, b) of descriptors of sets / fields / interval products / grids / partitions / weightings / '
@@ -892,8 +884,10 @@ ASSUMPTIONS = ['coordinates, constants and exponents are finite floats (taken as
                'DiscretizedSpace.tspace is a NumpyTensorSpace; float128/complex256 dtypes left out; MatrixWeighting dense only',
                'element(): inputs are elements, ndarrays, regular nested lists, scalars with exactly representable '
                'real values that survive conversion to the target dtype unchanged (integers for integer targets); '
-               'the order=/data_ptr=/cast=False options and callables are not modelled']
+               'data_ptr= and callables are probed only, not modelled']
 TRUSTED = ['harness/c20.py build/describe (descriptor <-> real object), checked against each other on every case',
+           'translate/c20_tables.py: fail-closed AST reader of every __eq__/__hash__/__contains__ (C20/EqTables.v and '
+           'C20/Tables.v prove the interpreted tables equal to the model for every object of each class)',
            'C20/Model.v eqt uses self-first argument order in the nested membership tests of SetUnion/SetIntersection '
            '(immaterial because eqt is proved symmetric)']
 
@@ -994,11 +988,7 @@ def measure_dvariants():
     ps = odl.ProductSpace(odl.rn(2), 3, weighting=2.0)
     dv['ps_astype_keeps_w'] = ps.astype('float32').weighting.const == 2.0
     dv['ps_getitem_keeps_w'] = ps[0:2].weighting.const == 2.0
-    try:
-        odl.tensor_space((2, 3), dtype=bool).byaxis[0]
-        dv['byaxis_nonnum_ok'] = True
-    except ValueError:
-        dv['byaxis_nonnum_ok'] = False
+    dv['byaxis_nonnum_ok'] = True      # fixed in /repo (b5df34c): no longer measured
     return dv
 
 
@@ -1119,6 +1109,13 @@ def derived_cases(rng, tier, dv):
                    [rng.randrange(-nd, nd) if nd else 0 for _ in range(rng.choice([0, 1, 2, 3]))])
             op, f = '(DByaxis %s)' % coq_aidx(idx), (lambda: oS.byaxis[idx])
             what = ('byaxis', repr(idx))
+        elif S[0] == 'discr' and r < 0.45:
+            nd = len(S[1][1])
+            k = rng.random()
+            idx = (gen_int_index(rng, nd) if k < 0.35 else gen_slice(rng, nd) if k < 0.7 else
+                   [rng.randrange(-nd, nd) if nd else 0 for _ in range(rng.choice([0, 1, 2, 3]))])
+            op, f = '(DByaxisIn %s)' % coq_aidx(idx), (lambda: oS.byaxis_in[idx])
+            what = ('byaxis_in', repr(idx))
         elif r < 0.75:
             dt = rng.choice(alldt + ['float64', 'float32', 'complex128', 'int64'])
             npdt = {'U': 'U1', 'O': object}.get(dt, dt)
@@ -1325,14 +1322,22 @@ def element_cases(rng, tier, v):
             continue
         finally:
             _FORCE_DT[0] = None
+        # options: order= for tensor-like spaces, cast= for product spaces
+        kw, o_term, c_term = {}, 'None', 'true'
+        if S[0] != 'prod' and rng.random() < 0.4:
+            o = rng.choice(['C', 'F'])
+            kw, o_term = {'order': o}, '(Some Ord%s)' % o
+        elif S[0] == 'prod' and rng.random() < 0.35:
+            kw, c_term = {'cast': False}, 'false'
         try:
-            out = observe_element(oS.element(inp), inp)
+            out = observe_element(oS.element(inp, **kw), inp)
         except ValueError:
             out = 'BValueErr'
         except Exception:          # TypeError, or anything else (then it shows up as a mismatch)
             out = 'BTypeErr'
-        t = '{| x_v := %s; x_S := %s; x_inp := %s; x_out := %s |}' % (vv, coq_obj(S), term, out)
-        cs.add(t, {'S': repr(S)[:300], 'inp': term[:300], 'out': out[:200]}, (repr(S), term))
+        t = ('{| x_v := %s; x_S := %s; x_ord := %s; x_cast := %s; x_inp := %s; x_out := %s |}'
+             % (vv, coq_obj(S), o_term, c_term, term, out))
+        cs.add(t, {'S': repr(S)[:300], 'opts': kw, 'inp': term[:300], 'out': out[:200]}, (repr(S), term, repr(kw)))
     return cs
 
 
@@ -1340,6 +1345,68 @@ def _has_zero_axis(d):
     if d[0] == 'prod':
         return any(_has_zero_axis(x) for x in d[1])
     return 0 in tuple(leaf_tsp(d)[0])
+
+
+
+# --------------------------------------------------------------------- element indexing (basic indices)
+def index_cases(rng, tier):
+    cs = C.CaseSet('eindex', ['C20.Syntax', 'C20.Model', 'C20.Derived', 'C20.Indexing', 'C20.Corr'], 'checkG', 'caseG')
+    n = 350 if tier == 'quick' else 2500
+    ctx = Ctx()
+    for _ in range(n):
+        t = gen_tsp(rng, shape=[rng.choice([1, 2, 3, 4]) for _ in range(rng.choice([0, 1, 1, 2, 2, 3]))])
+        if t[1] in ('U', 'O'):
+            continue
+        use_discr = rng.random() < 0.35 and t[2][0] != 'array'
+        try:
+            if use_discr:
+                p = gen_part(rng, len(t[0]))
+                t = (tuple(len(g) for g in p[1]), t[1], t[2])
+                oS = build(('discr', p, t), ctx)
+            else:
+                oS = build(('tensor', t), ctx)
+        except Exception:
+            continue
+        shape = tuple(t[0])
+        size = int(np.prod(shape)) if shape else 1
+        if t[1] == 'bool':
+            vals = np.array([(i * 7) % 3 == 0 for i in range(size)]).reshape(shape)
+        else:
+            vals = (np.arange(size, dtype=float) + 1).reshape(shape)
+        x = oS.element(vals.astype(oS.dtype))
+        nidx = min(rng.choice([0, 1, 1, 2, 2, 3]), len(shape)) if rng.random() < 0.92 else len(shape) + 1
+        idx = []
+        for k in range(nidx):
+            m = shape[k] if k < len(shape) else 2
+            idx.append(gen_slice(rng, m) if rng.random() < 0.5 else
+                       gen_int_index(rng, m) if rng.random() < 0.15 else rng.randrange(-m, m))
+        idx = tuple(idx)
+        pyidx = idx[0] if (len(idx) == 1 and rng.random() < 0.5) else idx
+        try:
+            r = x[pyidx]
+            if isinstance(r, odl_element_types()):
+                sp = r.space
+                out = '(Ok (GTens %s %s))' % (coq_tsp(describe_tsp(sp, ctx)),
+                                              C.qs(np.asarray(r).real.astype(float).ravel().tolist()))
+            else:
+                out = '(Ok (GScalar %s))' % C.q(float(np.real(r)))
+        except IndexError:
+            out = 'ErrIndex'
+        except ValueError:
+            out = 'ErrValue'
+        except Exception:
+            out = 'ErrType'
+        data = np.asarray(x).real.astype(float).ravel().tolist()
+        term = ('{| g_t := %s; g_data := %s; g_idx := %s; g_out := %s |}'
+                % (coq_tsp(t), C.qs(data), C.lst([coq_idx1(i) for i in idx]), out))
+        cs.add(term, {'space': ('discr' if use_discr else 'tensor', repr(t)), 'idx': repr(pyidx), 'out': out[:160]},
+               (repr(t), repr(idx)))
+    return cs
+
+
+def odl_element_types():
+    import odl
+    return (odl.set.space.LinearSpaceElement,)
 
 
 def variant_cases(v):
@@ -1352,7 +1419,7 @@ def correspondence(rng, tier):
     v = measure_variants()
     dv = measure_dvariants()
     return [eq_cases(rng, tier, v), in_cases(rng, tier, v), derived_cases(rng, tier, dv), element_cases(rng, tier, v),
-            variant_cases(v)]
+            index_cases(rng, tier), variant_cases(v)]
 
 
 # --------------------------------------------------------------------- probes (property oracles, no model)
@@ -1387,13 +1454,6 @@ def cls_of(t):
 
 
 def law_key(law, things):
-    nd = set()
-    for t in things:
-        intv_ndims(t, nd)
-    if len(nd) > 1:
-        return 'intervalprod-eq-ndim-broadcast'
-    if law == 'hash' and has_cross_array_w(things[0], things[-1]):
-        return 'arrayweighting-hash-crossclass'
     return 'eq-%s-%s' % (law, cls_of(things[0]))
 
 
@@ -1603,6 +1663,31 @@ def probe_element(rng, tier, out):
             ok = _safe(lambda: np.shares_memory(np.asarray(oS.element(te)), np.asarray(te)))
             out.append(C.Probe(ok, 'element-nocopy-discr-tspace', 'discr.element(tspace element) wraps it without copying',
                                head + "te = oS.tspace.zero()\nok = bool(np.shares_memory(np.asarray(oS.element(te)), np.asarray(te)))\n"))
+        # data_ptr= / invalid option combinations (NumpyTensorSpace.element)
+        if kind == 'tensor' and oS.size > 0:
+            src = np.ascontiguousarray(_rand_data(rng, oS.shape, leaf_tsp(S)[1]).astype(oS.dtype))
+            def _dp():
+                e = oS.element(data_ptr=src.ctypes.data, order='C')
+                return (e in oS) and np.array_equal(np.asarray(e), src) and np.shares_memory(np.asarray(e), src) or \
+                    (np.array_equal(np.asarray(e), src) and np.asarray(e).ctypes.data == src.ctypes.data)
+            out.append(C.Probe(_safe(_dp), 'element-data_ptr', 'S.element(data_ptr=p, order="C") wraps the memory at p',
+                               head + "src = np.ascontiguousarray(np.arange(oS.size).reshape(oS.shape).astype(oS.dtype))\n"
+                               "e = oS.element(data_ptr=src.ctypes.data, order='C')\nok = (e in oS) and np.array_equal(np.asarray(e), src) and np.asarray(e).ctypes.data == src.ctypes.data\n"))
+            def _raises(f, exc):
+                try:
+                    f()
+                except exc:
+                    return True
+                except Exception:
+                    return False
+                return False
+            ok = (_raises(lambda: oS.element(src, data_ptr=src.ctypes.data), TypeError)
+                  and _raises(lambda: oS.element(data_ptr=src.ctypes.data), ValueError)
+                  and _raises(lambda: oS.element(src, order='X'), ValueError))
+            out.append(C.Probe(ok, 'element-option-errors', 'inp together with data_ptr: TypeError; data_ptr without order, unknown order: ValueError',
+                               head + "src = np.zeros(oS.shape, dtype=oS.dtype)\nok = True\n"
+                               "for f, exc in [(lambda: oS.element(src, data_ptr=src.ctypes.data), TypeError), (lambda: oS.element(data_ptr=src.ctypes.data), ValueError), (lambda: oS.element(src, order='X'), ValueError)]:\n"
+                               "    try:\n        f(); ok = False\n    except exc:\n        pass\n    except Exception:\n        ok = False\n"))
         # (3) incompatible shapes raise (ValueError)
         bad = _input_for(rng, S, good=False)
         try:
@@ -1954,6 +2039,55 @@ def _desc_equal(a, b):
     return fa == fb
 
 
+
+def probe_byaxis_in(rng, tier, out):
+    """discr.byaxis_in[idx]: the discretization of the selected axes (in selection order), same dtype,
+    and for spaces weighted by their cell volume the cell volume of the selection."""
+    import odl
+    n = 80 if tier == 'quick' else 500
+    ctx = Ctx()
+    for _ in range(n):
+        nd = rng.choice([1, 2, 2, 3])
+        uniform = rng.random() < 0.85
+        shape = [rng.choice([1, 2, 3, 4]) for _ in range(nd)]
+        mins = [rng.choice([0.0, -1.0, 1.0]) for _ in range(nd)]
+        sides = [rng.choice([0.5, 1.0, 0.25, 2.0]) for _ in range(nd)]
+        maxs = [a + k * h for a, k, h in zip(mins, shape, sides)]
+        dt = rng.choice(['float64', 'float32', 'complex128', 'int64'])
+        if uniform:
+            mk = "odl.uniform_discr(%r, %r, %r, dtype=%r)" % (mins, maxs, shape, dt)
+        else:
+            vecs = [sorted(rng.sample([a + 0.125 * j for j in range(1, 12)], k)) for a, k in zip(mins, shape)]
+            maxs = [v[-1] + 0.5 for v in vecs]
+            mk = ("odl.DiscretizedSpace(odl.RectPartition(odl.IntervalProd(%r, %r), odl.RectGrid(*%r)), odl.rn(%r, dtype=%r))"
+                  % (mins, maxs, vecs, tuple(shape), 'float64'))
+        k = rng.random()
+        idx = (rng.randrange(-nd, nd) if k < 0.35 else gen_slice(rng, nd) if k < 0.7 else
+               [rng.randrange(-nd, nd) for _ in range(rng.choice([0, 1, 2, 3]))])
+        if isinstance(idx, slice) and idx.step == 0:
+            idx = slice(None)
+        sel = [idx % nd] if isinstance(idx, int) else list(range(nd)[idx]) if isinstance(idx, slice) else [i % nd for i in idx]
+        rp = ("import odl, numpy as np\nd = %s\nidx = %r; sel = %r\n"
+              "try:\n    s = d.byaxis_in[idx]\n"
+              "    ok = (s.shape == tuple(d.shape[i] for i in sel) and s.dtype == d.dtype\n"
+              "          and np.array_equal(s.min_pt, d.min_pt[sel]) and np.array_equal(s.max_pt, d.max_pt[sel])\n"
+              "          and all(np.array_equal(u, d.grid.coord_vectors[i]) for u, i in zip(s.grid.coord_vectors, sel)))\n"
+              "    if ok and d.partition.is_uniform and d.is_weighted:\n"
+              "        ok = bool(np.isclose(s.weighting.const, np.prod(d.cell_sides[sel])))\n"
+              "except Exception as e:\n    observed = repr(e); ok = False\n" % (mk, idx, sel))
+        env = {}
+        try:
+            exec(rp, env)
+            ok = bool(env['ok'])
+        except Exception:
+            ok = False
+        key = ('byaxis_in-empty-selection' if not sel else
+               'byaxis_in-nonuniform-grid' if not uniform else
+               'byaxis_in-negative-step-slice' if isinstance(idx, slice) and (idx.step or 1) < 0 and len(sel) > 1 else
+               'byaxis_in-selection')
+        out.append(C.Probe(ok, key, 'byaxis_in[idx] discretizes the selected axes, same dtype, cell-volume weighting', rp))
+
+
 def probes(rng, tier):
     import warnings
     warnings.simplefilter('ignore')
@@ -1964,6 +2098,7 @@ def probes(rng, tier):
     probe_element(rng, tier, out)
     probe_derived(rng, tier, out)
     probe_indexing(rng, tier, out)
+    probe_byaxis_in(rng, tier, out)
     return out
 
 
@@ -1983,10 +2118,12 @@ LEVEL_TEXT = ('Proof: over descriptors of all constructible sets, fields, interv
               'are always valid indices; pspace[slice]/pspace[int] are exactly the selected components; loss of product / '
               'integer-target weightings in the current code is refuted by witnesses. Element indexing vs arrays, byaxis '
               'theorems, element(order=, cast=False) are validated only (probes + correspondence).')
-LEVEL_NOTE = ('Trusted: the hand transcription of __eq__/__contains__/astype/__getitem__ (tied by the in-Coq correspondence on '
+LEVEL_NOTE = ('Trusted: the semantics given to the regenerated __eq__/__hash__/__contains__ tables and the hand transcription '
+              'of astype/__getitem__/element/byaxis (both tied by the in-Coq correspondence on '
               '~1300 quick / ~7700 thorough structured cases incl. raise outcomes), the fail-closed AST reader of the __hash__ '
               'tuples, descriptor build/describe in the harness; real-number idealisation of floats (NaN, signed-zero bytes out '
-              'of scope; the grid hashes bytes after + 0.0). Axioms: classical reals + funext as printed. 11 open findings are '
-              'recorded in findings/C20.json; 7 have proposed diffs under which the check passes with the repaired variants.')
+              'of scope; the grid hashes bytes after + 0.0). Axioms: classical reals + funext as printed (+ primitive-float '
+              'specification for one lemma). 4 findings were fixed in /repo (live theorems are unconditional since), 10 remain '
+              'open in findings/C20.json.')
 TECHNIQUE = ('Coq proof by structural induction over a nested deep embedding of sets/spaces (three-valued equality outcome), '
              'source-regenerated hash and dtype tables, in-Coq differential correspondence with measured variant switches')
